@@ -470,6 +470,64 @@ int loadFromString(NifFile& nif, const std::string& bytes, bool terrain) {
 
 std::string samplePath(const std::string& name) { return repoDir() + "/tests/input/" + name; }
 
+std::string builtAnimationFile(const std::string& ver) {
+	NifFile nif;
+	nif.Create(versionByName(ver)); // (block 0 is a root node for now)
+	auto& hdr = nif.GetHeader();
+	auto seqS = std::make_unique<NiControllerSequence>();
+	auto seq = seqS.get();
+	seq->name.get() = "Idle";
+	seq->accumRootName.get() = "NPC Root [Root]";
+	seq->frequency = 1.0f;
+	seq->stopTime = 2.0f;
+	hdr.AddBlock(std::move(seqS));
+	auto keysS = std::make_unique<NiTextKeyExtraData>();
+	auto keys = keysS.get();
+	keys->textKeys.resize(2);
+	keys->textKeys[0].time = 0.0f;
+	keys->textKeys[0].value.get() = "start";
+	keys->textKeys[1].time = 2.0f;
+	keys->textKeys[1].value.get() = "end";
+	seq->textKeyRef.index = hdr.AddBlock(std::move(keysS));
+	const char* bones[] = {"NPC Pelvis [Pelv]", "NPC Spine [Spn0]", "NPC Head [Head]"};
+	seq->controlledBlocks.resize(4);
+	for (int i = 0; i < 3; i++) {
+		auto interpS = std::make_unique<NiTransformInterpolator>();
+		auto interp = interpS.get();
+		interp->translation = Vector3(1.0f * float(i), 2.0f, 3.0f);
+		interp->scale = 1.0f;
+		uint32_t interpId = hdr.AddBlock(std::move(interpS));
+		interp->dataRef.index = hdr.AddBlock(std::make_unique<NiTransformData>());
+		auto& link = seq->controlledBlocks[i];
+		link.interpolatorRef.index = interpId;
+		link.priority = 30;
+		link.nodeName.get() = bones[i];
+		link.ctrlType.get() = "NiTransformController";
+	}
+	{
+		auto interpS = std::make_unique<NiFloatInterpolator>();
+		auto interp = interpS.get();
+		interp->floatValue = 0.5f;
+		uint32_t interpId = hdr.AddBlock(std::move(interpS));
+		interp->dataRef.index = hdr.AddBlock(std::make_unique<NiFloatData>());
+		auto& link = seq->controlledBlocks[3];
+		link.interpolatorRef.index = interpId;
+		link.priority = 30;
+		link.nodeName.get() = "NPC Head [Head]";
+		link.ctrlType.get() = "NiFloatExtraDataController";
+		link.ctrlID.get() = "Blink";
+	}
+	// the node Create() made goes away: every reference moves down by one and the sequence becomes block 0
+	hdr.DeleteBlock(0u);
+	return saveToString(nif, false, false);
+}
+
+std::string inputBytes(const std::string& name) {
+	const std::string pre = "built:animation:";
+	if (name.compare(0, pre.size(), pre) == 0) return builtAnimationFile(name.substr(pre.size()));
+	return readFile(samplePath(name));
+}
+
 std::vector<std::string> sampleFiles() {
 	std::vector<std::string> r;
 	std::string d = repoDir() + "/tests/input";
